@@ -171,9 +171,21 @@ def parse_case(line: str) -> Case:
 
 
 # ------------------------------------------------------------------ real code: direct drive along the tree
-def real_direct(case: Case):
-    """returns (output string, info dict for the oracle)"""
+def real_direct(case: Case, mutable: bool = False, shared=None):
+    """returns (output string, info dict for the oracle).
+
+    mutable: chunk / header / footer payloads are bytearrays (allowed by SomeData); `shared` is a dict that
+    lets a second run re-use the very same buffer objects (a producer re-using its buffers, a cached header)."""
     from odc.geo.cog import _mpu as M
+
+    bufs = shared if shared is not None else {}
+
+    def buf(key, bs: bytes):
+        if not mutable:
+            return bs
+        if key not in bufs:
+            bufs[key] = (bytearray(bs), bs)
+        return bufs[key][0]
 
     w = RecWriter(case.min_write, case.min_part, case.max_part) if case.has_w else None
     leaves = tree_leaves(case.tree)
@@ -191,7 +203,7 @@ def real_direct(case: Case):
                              is_final=mark_final and idx == total - 1, lhs_keep=lhs_keep)
             chunks = []
             for sz in t[1]:
-                chunks.append((payload(state["off"], sz), state["cid"]))
+                chunks.append((buf(("c", state["cid"]), payload(state["off"], sz)), state["cid"]))
                 state["off"] += sz
                 state["cid"] += 1
             (out,) = M._mpu_append_chunks_op([mpu], chunks, write=w, spill_sz=case.spill)
@@ -200,7 +212,7 @@ def real_direct(case: Case):
         r = ev(t[2])
         return M._merge_and_spill_op(l, r, write=w, spill_sz=case.spill)
 
-    info = {"w": w, "seen": None, "exc": None}
+    info = {"w": w, "seen": None, "exc": None, "bufs": bufs}
     try:
         root = ev(case.tree)
         seen = list(root.observed)
@@ -215,8 +227,8 @@ def real_direct(case: Case):
 
         rr = M._finalizer_dask_op(
             root, write=w,
-            mk_header=None if case.hdr is None else mk(hdr_bytes(case.hdr)),
-            mk_footer=None if case.ftr is None else mk(ftr_bytes(case.ftr)))
+            mk_header=None if case.hdr is None else mk(buf("h", hdr_bytes(case.hdr))),
+            mk_footer=None if case.ftr is None else mk(buf("f", ftr_bytes(case.ftr))))
         info["cb_seen"] = cb_seen
         if w is None:
             c = rr
@@ -243,6 +255,11 @@ def oracle(R: Run, case: Case, out: str, info, via: str):
         R.oracle(False, f"mpu-write-fails:{type(info['exc']).__name__}", cd,
                  f"write failed with {info['exc']!r} because of where chunk/partition boundaries fall")
         return
+    changed = [str(k) for k, (b, orig) in info.get("bufs", {}).items() if bytes(b) != orig]
+    if info.get("bufs"):
+        R.oracle(not changed, "caller-buffer-mutated", cd,
+                 f"bytearray buffers handed to the library were modified in place: {changed[:5]} "
+                 "(a producer re-using them, or a second upload of the same chunks/header, gets a different stream)")
     want = case.stream()
     want_obs = case.want_obs()
     ok_seen = info["seen"] == want_obs and all(s == want_obs for s in info.get("cb_seen", []))
@@ -396,6 +413,65 @@ def real_dask(R: Run, case_cfg, partitions_per_sub, split_every, sched, use_mpu_
 
 
 
+def real_dask_pair(R: Run, cfg, subs_a, subs_b, sched):
+    """Two uploads with equal callbacks / options but different writers and data, computed in ONE dask graph."""
+    import dask
+    import dask.bag
+    from dask.delayed import delayed
+    from odc.geo.cog import _mpu as M
+    from .sched import RandomOrderExecutor
+
+    has_w, min_write, min_part, max_part, spill, wpc, hdr, ftr = cfg
+    mk_header = None if hdr is None else (lambda obs, _b=hdr_bytes(hdr): _b)
+    mk_footer = None if ftr is None else (lambda obs, _b=ftr_bytes(ftr): _b)
+    futs, cases, infos = [], [], []
+    for subs in (subs_a, subs_b):
+        w = RecWriter(min_write, min_part, max_part)
+        off = cid = 0
+        bags = []
+        for sub in subs:
+            parts = []
+            for sizes in sub:
+                items = []
+                for sz in sizes:
+                    items.append((payload(off, sz), cid))
+                    off += sz
+                    cid += 1
+                parts.append(delayed(lambda x: x, pure=False)(items))
+            bags.append(dask.bag.from_delayed(parts))
+        futs.append(M.mpu_write(bags if len(bags) > 1 else bags[0], w, mk_header=mk_header, mk_footer=mk_footer,
+                                writes_per_chunk=wpc, spill_sz=spill))
+        leaves = [l for sub in subs for l in sub]
+        tree = ("l", leaves[0])
+        for l in leaves[1:]:
+            tree = ("n", tree, ("l", l))
+        c = Case(True, min_write, min_part, max_part, spill, wpc, hdr, ftr, tree)
+        cases.append(c)
+        infos.append({"w": w, "seen": c.want_obs(), "exc": None, "cb_seen": []})
+    pool = None
+    try:
+        if sched == "sync":
+            dask.compute(*futs, scheduler="synchronous")
+        elif sched == "threads":
+            dask.compute(*futs, scheduler="threads", num_workers=8)
+        else:
+            pool = RandomOrderExecutor(R.rng)
+            dask.compute(*futs, scheduler="threads", pool=pool)
+    except Exception as e:  # pylint: disable=broad-except
+        for i in infos:
+            i["exc"] = e
+    finally:
+        if pool is not None:
+            pool.shutdown(wait=False)
+    for c, info in zip(cases, infos):
+        if info["exc"] is None and info["w"].final is None:
+            R.oracle(False, "upload-never-finalised", {"line": c.line(), "via": f"dask-pair:{sched}"},
+                     "two uploads computed in one dask graph: finalise() was never called for one destination "
+                     f"({len(info['w'].calls)} parts written)")
+            continue
+        oracle(R, c, "", info, f"dask-pair:{sched}")
+
+
 SIZES = [0, 3, 10, 25]
 
 
@@ -466,7 +542,7 @@ def _exhaustive_worker(job):
             continue
         if (k // stride) % nworkers != w:
             continue
-        o, info = real_direct(c)
+        o, info = real_direct(c, mutable=(k // stride) % 3 == 0)
         lines.append((c.line(), o, sig_of(c, o)))
         oracle(col, c, o, info, "direct")
     return lines, col.oracle_failures, col.oracle_evals, col.dist
@@ -542,9 +618,15 @@ def run(R: Run):
         hdr = rng.choice([None, 0, 1, min_write, 3 * min_write + 2])
         ftr = rng.choice([None, None, 0, 1, min_write + 3])
         c = Case(has_w, min_write, mp, max_part, spill, wpc, hdr, ftr, random_tree(rng, leaves))
-        o, info = real_direct(c)
-        R.corr(c.line(), lambda: o, sig=sig_of(c, o))
+        mutable = rng.random() < 0.4
+        o, info = real_direct(c, mutable=mutable)
+        R.corr(c.line(), lambda: o, sig=sig_of(c, o) + ("|bytearray" if mutable else ""))
         oracle(R, c, o, info, "direct")
+        if mutable and rng.random() < 0.5:
+            # the same buffer objects (chunks, cached header/footer) go through a second upload
+            o2, info2 = real_direct(c, mutable=True, shared=info["bufs"])
+            R.corr(c.line(), lambda: o2, sig="second-upload-shared-buffers")
+            oracle(R, c, o2, info2, "direct:second-upload-shared-buffers")
 
     # ---------------- real dask graphs (mpu_write / from_dask_bag / fold / collate / finaliser)
     ndask = R.pick(60, 400)
@@ -568,19 +650,44 @@ def run(R: Run):
         R.corr(case.line(), lambda: out, sig=f"dask|{sched}|{'mpu_write' if use_mpu_write else f'split{split_every}'}|subs={nsub}")
         oracle(R, case, out, info, f"dask:{sched}")
         R.count(f"dask-sched:{sched}")
+    # ---------------- several uploads inside one dask graph (equal options, different destinations / data)
+    for i in range(R.pick(12, 90)):
+        min_write = rng.choice([4, 10])
+        mk_subs = lambda: [[[rng.choice([0, 3, min_write, 2 * min_write + 5, rng.randint(0, 40)])
+                             for _ in range(rng.choice([1, 2]))] for _ in range(rng.randint(1, 5))]
+                           for _ in range(rng.choice([1, 1, 2]))]
+        sa, sb = mk_subs(), mk_subs()
+        wpc = rng.choice([1, 2])
+        total = max(sum(len(x) for x in sa), sum(len(x) for x in sb))
+        cfg = (True, min_write, 1, 1 + total * wpc + 20, rng.choice([1, min_write, 25, 1000]), wpc,
+               rng.choice([None, 6]), rng.choice([None, None, 5]))
+        real_dask_pair(R, cfg, sa, sb, ["sync", "threads", "random"][i % 3])
+        R.count("dask-pair")
     R.assumptions.append("dask runs every task once after its dependencies; tasks are pure functions of their inputs")
 
 
 def replay(R: Run, rec) -> int:
     case = parse_case(rec["case"]["line"])
-    out, info = real_direct(case)
-    print("real :", out)
-    R.proof_stage()
-    from .common import run_driver
-
-    print("model:", run_driver("C06", [case.line()])[0])
+    via = rec["case"].get("via", "")
+    key = rec.get("key", "")
     before = len(R.oracle_failures)
-    oracle(R, case, out, info, "replay")
+    if key == "upload-never-finalised" or via.startswith("dask-pair"):
+        subs = [[l for l in tree_leaves(case.tree)]]
+        cfg = (True, case.min_write, case.min_part, case.max_part, case.spill, case.wpc, case.hdr, case.ftr)
+        real_dask_pair(R, cfg, subs, subs, "sync")
+    else:
+        mutable = key == "caller-buffer-mutated" or "shared-buffers" in via
+        out, info = real_direct(case, mutable=mutable)
+        print("real :", out)
+        oracle(R, case, out, info, "replay")
+        if mutable:
+            out2, info2 = real_direct(case, mutable=True, shared=info["bufs"])
+            print("real (second upload, same buffers):", out2)
+            oracle(R, case, out2, info2, "replay:second")
+        R.proof_stage()
+        from .common import run_driver
+
+        print("model:", run_driver("C06", [case.line()])[0])
     for f in R.oracle_failures[before:]:
         print("FAILS:", f["key"], f["what"])
     return 1 if len(R.oracle_failures) > before else 0
